@@ -549,8 +549,11 @@ def history_problems():
             fresh1 = _prepared_run(QueryPlanner(**kw), parse_sql(sql), [v1])[0]
             fresh2 = _prepared_run(QueryPlanner(**kw), parse_sql(sql), [v2])[0]
             seq = _prepared_run(QueryPlanner(**kw), parse_sql(sql), [v1, v2])
-            rej = _prepared_run(QueryPlanner(**kw), parse_sql(sql), [v1[:1], v1])
-            rej2 = _prepared_run(QueryPlanner(**kw), parse_sql(sql), [v1 + [9], v1])
+            # every wrong number of values 0 .. n+2 (the empty list included), each followed by a correct call
+            rejs = {}
+            for k in range(0, len(v1) + 3):
+                if k != len(v1):
+                    rejs[k] = _prepared_run(QueryPlanner(**kw), parse_sql(sql), [(v1 + [9, 9])[:k], v1])
         except ImportError:
             return out
         except Exception as e:
@@ -562,7 +565,7 @@ def history_problems():
             out.append((f'first-execute.{name}', sql, f'first execute plans {seq[0]}, a fresh prepare+execute plans {fresh1}'))
         if not isinstance(seq[1], tuple) and seq[1] != fresh2:
             out.append((f'reexecute.{name}', sql, f'second execute with {v2} plans {str(seq[1])[:200]}; a fresh prepare+execute of these values plans {str(fresh2)[:200]}'))
-        for tag, r in (('too-few', rej), ('too-many', rej2)):
+        for tag, r in [(('too-few' if k < len(v1) else 'too-many') + ('.none' if k == 0 else ('' if abs(k - len(v1)) == 1 else f'.{k}')), r_) for k, r_ in rejs.items()]:
             if not (isinstance(r[0], tuple) and r[0][1] == 'PlanningException'):
                 out.append((f'count.{tag}.{name}', sql, f'execute with a wrong number of values: {r[0]}'))
             elif r[1] != fresh1:
@@ -633,6 +636,58 @@ def walker_dependency(rep, tier):
         rep.proved('C12.walker', 'pysym', f'{n_ok} walker obligations of C13 hold (its {len(sub.obs) - n_ok} listed findings concern slots this property does not use)',
                    function='mindsdb_sql.planner.utils:query_traversal', clause='the visitor is applied once to every node reachable through the slots this property uses; replacements land in place')
 
+def wrapper_contracts(rep):
+    """the public entry points on QueryPlanner hand their argument, unchanged, to the method of the same name of a PreparedStatementPlanner built on
+    this planner, and return what it returns"""
+    QP = 'mindsdb_sql.planner.query_planner'
+    for meth, nargs in (('prepare_steps', 1), ('execute_steps', 1), ('get_statement_info', 0)):
+        for variant in (['value'] if nargs == 0 else ['value', 'empty-list', 'none']):
+            def make_args(ex, meth=meth, nargs=nargs, variant=variant):
+                selfo = SymObj(None, 'self', prov='param')
+                selfo.known_not_none = True
+                calls = []
+                result = SymObj(None, 'result', prov='fresh')
+
+                def ctor(ex_, a, k, node=None):
+                    sp = SymObj(None, 'statement_planner', prov='fresh')
+                    sp.known_not_none = True
+                    sp.ctor_args = (list(a), dict(k))
+                    for m_ in ('prepare_steps', 'execute_steps', 'get_statement_info'):
+                        sp.fields[m_] = Stub(lambda e_, a_, k_, m_=m_: (calls.append((m_, list(a_), dict(k_))), result)[1], m_)
+                    calls.append(('ctor', list(a), dict(k)))
+                    return sp
+                ex.stubs[(QP, 'PreparedStatementPlanner')] = ctor
+                ex.stubs[('mindsdb_sql.planner.query_prepare', 'PreparedStatementPlanner')] = ctor
+                arg = {'value': SymObj(None, 'arg', prov='param'), 'empty-list': [], 'none': None}[variant]
+                ex.path_state.update(calls=calls, result=result, arg=arg, selfo=selfo)
+                return [selfo] + ([arg] if nargs else []), {}
+
+            def post(ex, o, meth=meth, nargs=nargs):
+                st = o.state
+                if o.kind != 'return':
+                    return f'raises {o.value.__name__}'
+                calls = st['calls']
+                ct = [c for c in calls if c[0] == 'ctor']
+                ms = [c for c in calls if c[0] != 'ctor']
+                if len(ct) != 1 or len(ct[0][1]) != 1 or ct[0][1][0] is not st['selfo'] or ct[0][2]:
+                    return f'the statement planner is not built on this planner: {ct!r}'
+                if len(ms) != 1 or ms[0][0] != meth:
+                    return f'delegates to {[c[0] for c in ms]}, expected {meth}'
+                a, k = ms[0][1], ms[0][2]
+                if nargs:
+                    got = a[0] if a else (list(k.values())[0] if k else '<nothing>')
+                    if len(a) + len(k) != 1 or got is not st['arg']:
+                        return f'the argument is not handed over unchanged: given {st["arg"]!r}, passed {got!r}'
+                elif a or k:
+                    return f'passes arguments {a!r} {k!r}'
+                if o.value is not st['result']:
+                    return f'returns {o.value!r}, not the result of the delegate'
+                return None
+            v = pysym.verify(QP, f'QueryPlanner.{meth}', make_args, post)
+            oid = f'C12.api.wrapper.{meth}' + ('' if variant == 'value' else f'.{variant}')
+            _emit(rep, oid, v, f'{QP}:QueryPlanner.{meth}', 'ensures result == PreparedStatementPlanner(self).<same method>(argument), argument identical (an empty list stays an empty list)')
+
+
 def check(rep, tier):
     from vlib import statecensus
     statecensus.obligations(rep, 'C12', 'planner')
@@ -644,5 +699,6 @@ def check(rep, tier):
     collect_contract(rep)
     fill_contract(rep)
     api_contracts(rep)
+    wrapper_contracts(rep)
     bounded(rep, tier)
     rep.notes.append('Callback/API contracts proved for all statements and value lists; ordering inherits C13.')
